@@ -119,6 +119,26 @@ def writer_check(ctx, case, gt, sp, share=None):
                     "message written after edits (%s) differs from the "
                     "contract: %s" % (", ".join(sorted(set(edits))), d[0]),
                     {"diffs": d})
+    # and the same for the IR as loaded from that file
+    if rnd.random() < 0.4:
+        from .. import world
+        loaded = irio.load(gt, raw)
+        nodes_l = {n.uuid.hex: n for n in world.reachable(gt, loaded)}
+        sp3, edits = irbuild.mutate_live(rnd, gt, sp, nodes_l, {},
+                                         rnd.randint(1, 4))
+        if edits:
+            actual3 = irio.message_data(gt, irio.save(loaded))
+            exp3 = contract.canon(contract.resolve_aux(
+                contract.expected_message(sp3, gt), irio.aux_decoder))
+            ctx.count("writer:comparisons_after_edit_of_loaded")
+            d = contract.diff(exp3, actual3)
+            if d:
+                raise Discrepancy(
+                    "C02", "writer-after-edit-of-loaded:" +
+                    irio.general_path(d[0]),
+                    "message written from a loaded IR after edits (%s) "
+                    "differs from the contract: %s" % (
+                        ", ".join(sorted(set(edits))), d[0]), {"diffs": d})
     if share is not None:
         with open(share, "wb") as f:
             f.write(raw)
